@@ -57,11 +57,23 @@ probe_type!(T2);
 probe_type!(T3);
 probe_type!(T4);
 probe_type!(T5);
+probe_type!(T6);
+probe_type!(T7);
 
-/// Number of probe types.
+pub trait ProbeIdx {
+    const IDX: u8;
+}
+macro_rules! probe_idx {
+    ($($t:ident = $i:expr),*) => { $(impl ProbeIdx for $t { const IDX: u8 = $i; })* };
+}
+probe_idx!(T0 = 0, T1 = 1, T2 = 2, T3 = 3, T4 = 4, T5 = 5, T6 = 6, T7 = 7);
+
+/// Number of probe types used by the generators (T6, T7 only occur in the multi-borrow catalogue).
 pub const NT: u8 = 6;
+/// Number of probe types in total.
+pub const NPROBE: u8 = 8;
 /// Model tag of `common::Iterations`.
-pub const TAG_IT: u8 = 6;
+pub const TAG_IT: u8 = 12;
 
 /// Dispatch a type index to a probe type.
 #[macro_export]
@@ -90,6 +102,14 @@ macro_rules! with_ty {
             }
             5 => {
                 type $T = $crate::engine::types::T5;
+                $body
+            }
+            6 => {
+                type $T = $crate::engine::types::T6;
+                $body
+            }
+            7 => {
+                type $T = $crate::engine::types::T7;
                 $body
             }
             other => panic!("harness: bad probe type index {other}"),
